@@ -151,12 +151,14 @@ def inDict (has : Str → Bool) (ev : J) : Bool :=
     Unhashable event names raise `TypeError` at the first dict membership test. -/
 def resolve (reg : Registry) (ns : Ns) (ev : J) (args : List J) : Except Err Resolved :=
   let isRes := match evStr ev with | some s => reserved.contains s | none => false
+  -- '*' is the catch-all key, never an exact event name
+  let isStar := match evStr ev with | some s => s == star | none => false
   let nsJ := J.str ns
   -- function handlers
   let step1 : Except Err (Option Resolved) :=
     if reg.fnNs ns then
       if !hashable ev then .error .typeError
-      else if inDict (reg.fn ns) ev then .ok (some (.fn (.fn ns ((evStr ev).getD [])) args))
+      else if !isStar && inDict (reg.fn ns) ev then .ok (some (.fn (.fn ns ((evStr ev).getD [])) args))
       else if !isRes && reg.fn ns star then .ok (some (.fn (.fn ns star) (ev :: args)))
       else .ok none
     else .ok none
@@ -167,7 +169,7 @@ def resolve (reg : Registry) (ns : Ns) (ev : J) (args : List J) : Except Err Res
     let step2 : Except Err (Option Resolved) :=
       if reg.fnNs star then
         if !hashable ev then .error .typeError
-        else if inDict (reg.fn star) ev then .ok (some (.fn (.fn star ((evStr ev).getD [])) (nsJ :: args)))
+        else if !isStar && inDict (reg.fn star) ev then .ok (some (.fn (.fn star ((evStr ev).getD [])) (nsJ :: args)))
         else if !isRes && reg.fn star star then .ok (some (.fn (.fn star star) (ev :: nsJ :: args)))
         else .ok none
       else .ok none
